@@ -29,6 +29,7 @@ from fractions import Fraction
 import numpy as np
 
 from .. import core
+from . import c18_proc
 from ..core import rat
 
 RULE = ("constructor kind (floats without/with reference, reference as datetime or datetime64; datetime stamps; datetime64[us|ms|s] "
@@ -907,6 +908,7 @@ def run(chk):
     chk.extra["max_drift_us"] = round(drift * 1e6, 3)
     run_shared(chk, drv)
     check_refs(chk, drv)
+    c18_proc.run_proc(chk)
     # nanosecond resolution: enforced once registered in known_findings.json (status known -> KNOWN-FINDING, fixed -> must hold)
     ns = ns_probe()
     chk.count("ns.probe", 2)
@@ -955,6 +957,8 @@ def show_trace(tr):
 
 def replay(rp):
     case = rp.get("input") or {}
+    if case.get("kind") == "proc":
+        return c18_proc.replay_proc(rp)
     if case.get("kind") == "shared":
         fails = []
         tol = 0.0 if case.get("exact", True) else 2e-6
